@@ -24,10 +24,17 @@ def main():
     extra = sys.argv[sys.argv.index("--also") + 1].split(",") if "--also" in sys.argv else []
     files += extra
     pkgs = sorted({MOD + "/" + os.path.dirname(f) for f in files})
-    env = dict(os.environ, VERIF_TAG="-cover", VERIF_COVER=",".join(pkgs), GOFLAGS="-mod=mod", GOPROXY="off",
+    wt = "/tmp/anchorcov-%s" % pid
+    subprocess.run("git -C /repo worktree remove --force %s; rm -rf %s; git -C /repo worktree add -f %s HEAD" % (wt, wt, wt),
+                   shell=True, stdout=subprocess.DEVNULL, stderr=subprocess.DEVNULL)
+    env = dict(os.environ, VERIF_TAG="-cover", VERIF_COVER=",".join(pkgs), VERIF_REPO=wt, GOFLAGS="-mod=mod", GOPROXY="off",
                GOSUMDB="off", GOTOOLCHAIN="local")
-    r = subprocess.run([os.path.join(V, "check"), pid, "--tier", tier], cwd=V, env=env, stdout=subprocess.PIPE,
-                       stderr=subprocess.STDOUT, text=True)
+    try:
+        r = subprocess.run([os.path.join(V, "check"), pid, "--tier", tier], cwd=V, env=env, stdout=subprocess.PIPE,
+                           stderr=subprocess.STDOUT, text=True)
+    finally:
+        subprocess.run("git -C /repo worktree remove --force %s; git -C /repo worktree prune" % wt, shell=True,
+                       stdout=subprocess.DEVNULL, stderr=subprocess.DEVNULL)
     tail = [l for l in r.stdout.splitlines() if l.startswith(("OK ", "VIOLATION", "INFRA"))]
     blocks = {}  # (file, "sl.sc,el.ec") -> [nstmt, count]
     for prof in glob.glob(os.path.join(V, "work", pid + "-cover", "*", "cover.out")):
@@ -35,6 +42,8 @@ def main():
             if l.startswith("mode:"):
                 continue
             loc, n, c = l.rsplit(" ", 2)
+            if "/zz_verif_" in loc or "/internal/verif" in loc:
+                continue
             f, rng = loc.rsplit(":", 1)
             k = (f[len(MOD) + 1:], rng)
             b = blocks.setdefault(k, [int(n), 0])
